@@ -1,3 +1,5 @@
+// workload.go: the job list of a tier and seed (corpus x feature sets, small
+// crafted regressions, hostile-name jobs, PRNG documents).
 package c02
 
 import (
